@@ -29,7 +29,8 @@ META = {
             "transactions with id, timestamp, reference, metadata, revisions, reverted_at; accounts with metadata and revisions; counts) and frameBad = []; "
             "ledger_frame - for every projected history and every further entry the rows of every OTHER ledger in all five tables are EQUAL before and "
             "after (no hypothesis); insert_move_maintains_volumes (every database state: the two select-into, the insert and the update of the later-dated "
-            "rows keep running and effective totals); generated_step_refines_typed_step (one INSERT into logs through the generated handle_log chain is the "
+            "rows keep running and effective totals); projection_running_volumes / projection_effective_volumes (clauses (i), (ii) as a reader of moves uses them, "
+            "(ii) for EVERY date d, not only the dates that occur); generated_step_refines_typed_step (one INSERT into logs through the generated handle_log chain is the "
             "typed step aStep, every database, every entry - the ONLY layer that unfolds Generated/Schema.lean: it stops checking when the SQL changes, "
             "e.g. the seeded order-by change C04-1 or the missing `if not found` reset of 6 #24); projection_invariant; wellFormed_examples / wellFormed_needed "
             "(the hypothesis holds on the rich example and on all 316 small histories, and cannot be dropped: J.beq is not reflexive on a 'map' with a key "
